@@ -36,7 +36,8 @@ def show(n):
     if is_leaf(n):
         return n[4] + occ
     sep = {'seq': ',', 'cho': '|', 'all': '&'}[n[0]]
-    return '(' + sep.join(show(c) for c in n[3]) + ')' + occ
+    lead = sep if len(n[3]) == 1 and n[0] != 'seq' else ''     # a one-child choice is written (|a)
+    return '(' + lead + sep.join(show(c) for c in n[3]) + ')' + occ
 
 
 def size(n):
